@@ -580,6 +580,9 @@ func (channel *Channel) close() {
 	if channel.id > 0 {
 		channel.handleReject(0, true, true, &amqp.BasicNack{})
 	}
+	// a publish whose content was still arriving goes with the channel: content frames sent after the close
+	// must not complete it
+	channel.currentMessage = nil
 	channel.status = channelClosed
 	channel.logger.Info("Channel closed")
 }
